@@ -185,6 +185,7 @@ class Sim(object):
         mode "replies": a choice is consumed only where a task reply competes with something else (another reply, an
         event delivery, a due timer); the candidates are the replies plus the first other action; everything else FIFO."""
         trace = []
+        self.last_mode, self.last_trace = mode, trace
         if mode == "all":
             for c in schedule:
                 if not self.enabled():
